@@ -506,6 +506,1147 @@ fn curved_and_shapes(args: &Args, st: &mut Stats) {
     }
 }
 
+// =================================================================================================
+// Audit centred on CURVED paths and on the special positions of the query point.
+//
+// Independent reference: every curve is evaluated by this file's own f64 Bernstein form at AUDIT_N + 1 parameters,
+// sub-paths are closed implicitly, and the winding number of a point is the total signed angle (sum of atan2
+// differences) swept by that fine polyline around it.  The reference is consulted only for points farther than
+// (tolerance + 1e-3) from the fine polyline.
+//
+// The half-open rule of hit_test.rs (test_segment): a flattened edge (y0 -> y1) is counted when
+//     min(y0, y1) <= p.y < max(y0, y1)   and the edge's x at p.y is <= p.x,
+// +1 when y grows along the edge and -1 otherwise; horizontal edges never count.  A vertex exactly level with the
+// query is therefore attributed to the edges that leave it towards LARGER y: an outline that goes through the level
+// monotonically is counted once (by exactly one of the two edges), one that turns back from smaller y (a local
+// maximum of y) is not counted, one that turns back from larger y (a local minimum) is counted +1 and -1 by its two
+// edges.  In every case the total is that of a query moved slightly towards larger y, hence the right total for a
+// point off the outline.  The bounding-range early-outs of the Quadratic / Cubic arms are closed on both sides
+// (`min > y || max < y` skips), which is compatible with that rule.
+// Sign convention (DESIGN, C18): lyon reports -1 inside a sub-path of positive area; with turns counted positive
+// from +x towards +y (the direction of positive shoelace area) the reported winding number is -turns.
+// `Winding::Positive` is that same direction: positive shoelace area sum(x_i*y_{i+1} - x_{i+1}*y_i), which on a
+// screen with y pointing DOWN looks clockwise (add_rectangle: min -> (max.x, min.y) -> max -> (min.x, max.y)).
+// =================================================================================================
+
+const AUDIT_N: usize = 2048;
+
+#[derive(Clone, Copy, Debug, PartialEq)]
+enum ASeg {
+    L(Point),
+    Q(Point, Point),
+    C(Point, Point, Point),
+}
+
+#[derive(Clone, Debug)]
+struct ASub {
+    start: Point,
+    segs: Vec<ASeg>,
+    close: bool,
+}
+
+type F2 = (f64, f64);
+
+fn aseg_to(s: &ASeg) -> Point {
+    match *s {
+        ASeg::L(p) => p,
+        ASeg::Q(_, p) => p,
+        ASeg::C(_, _, p) => p,
+    }
+}
+
+fn asub_reversed(s: &ASub) -> ASub {
+    let mut pts = vec![s.start];
+    for g in &s.segs {
+        pts.push(aseg_to(g));
+    }
+    let mut segs = Vec::new();
+    for i in (0..s.segs.len()).rev() {
+        let to = pts[i];
+        segs.push(match s.segs[i] {
+            ASeg::L(_) => ASeg::L(to),
+            ASeg::Q(c, _) => ASeg::Q(c, to),
+            ASeg::C(c1, c2, _) => ASeg::C(c2, c1, to),
+        });
+    }
+    ASub { start: *pts.last().unwrap(), segs, close: s.close }
+}
+
+fn apath_map(subs: &[ASub], f: &dyn Fn(Point) -> Point) -> Vec<ASub> {
+    subs.iter()
+        .map(|s| ASub {
+            start: f(s.start),
+            segs: s
+                .segs
+                .iter()
+                .map(|g| match *g {
+                    ASeg::L(p) => ASeg::L(f(p)),
+                    ASeg::Q(c, p) => ASeg::Q(f(c), f(p)),
+                    ASeg::C(c1, c2, p) => ASeg::C(f(c1), f(c2), f(p)),
+                })
+                .collect(),
+            close: s.close,
+        })
+        .collect()
+}
+
+fn apath_build(subs: &[ASub]) -> Path {
+    let mut b = Path::builder();
+    for s in subs {
+        b.begin(s.start);
+        for g in &s.segs {
+            match *g {
+                ASeg::L(p) => {
+                    b.line_to(p);
+                }
+                ASeg::Q(c, p) => {
+                    b.quadratic_bezier_to(c, p);
+                }
+                ASeg::C(c1, c2, p) => {
+                    b.cubic_bezier_to(c1, c2, p);
+                }
+            }
+        }
+        b.end(s.close);
+    }
+    b.build()
+}
+
+/// what a built path contains, read back through its events (shape helpers, `reversed()`)
+fn apath_read(path: &Path) -> Vec<ASub> {
+    let mut subs: Vec<ASub> = Vec::new();
+    for e in path.iter() {
+        match e {
+            lyon_path::PathEvent::Begin { at } => subs.push(ASub { start: at, segs: Vec::new(), close: false }),
+            lyon_path::PathEvent::Line { to, .. } => subs.last_mut().unwrap().segs.push(ASeg::L(to)),
+            lyon_path::PathEvent::Quadratic { ctrl, to, .. } => subs.last_mut().unwrap().segs.push(ASeg::Q(ctrl, to)),
+            lyon_path::PathEvent::Cubic { ctrl1, ctrl2, to, .. } => subs.last_mut().unwrap().segs.push(ASeg::C(ctrl1, ctrl2, to)),
+            lyon_path::PathEvent::End { close, .. } => subs.last_mut().unwrap().close = close,
+        }
+    }
+    subs
+}
+
+fn apath_text(subs: &[ASub]) -> String {
+    let mut s = String::new();
+    for sub in subs {
+        s.push_str(&format!("M {} {} ", sub.start.x, sub.start.y));
+        for g in &sub.segs {
+            match *g {
+                ASeg::L(p) => s.push_str(&format!("L {} {} ", p.x, p.y)),
+                ASeg::Q(c, p) => s.push_str(&format!("Q {} {} {} {} ", c.x, c.y, p.x, p.y)),
+                ASeg::C(c1, c2, p) => s.push_str(&format!("C {} {} {} {} {} {} ", c1.x, c1.y, c2.x, c2.y, p.x, p.y)),
+            }
+        }
+        s.push_str(if sub.close { "Z " } else { "(open) " });
+    }
+    s
+}
+
+fn p64(p: Point) -> F2 {
+    (p.x as f64, p.y as f64)
+}
+
+fn bez2(a: F2, c: F2, b: F2, t: f64) -> F2 {
+    let u = 1.0 - t;
+    (u * u * a.0 + 2.0 * u * t * c.0 + t * t * b.0, u * u * a.1 + 2.0 * u * t * c.1 + t * t * b.1)
+}
+
+fn bez3(a: F2, c1: F2, c2: F2, b: F2, t: f64) -> F2 {
+    let u = 1.0 - t;
+    let (w0, w1, w2, w3) = (u * u * u, 3.0 * u * u * t, 3.0 * u * t * t, t * t * t);
+    (w0 * a.0 + w1 * c1.0 + w2 * c2.0 + w3 * b.0, w0 * a.1 + w1 * c1.1 + w2 * c2.1 + w3 * b.1)
+}
+
+/// the fine flattening: one polyline per sub-path (closed implicitly by the functions below)
+fn afine(subs: &[ASub], n: usize) -> Vec<Vec<F2>> {
+    subs.iter()
+        .map(|s| {
+            let mut v = vec![p64(s.start)];
+            let mut cur = p64(s.start);
+            for g in &s.segs {
+                match *g {
+                    ASeg::L(p) => v.push(p64(p)),
+                    ASeg::Q(c, p) => {
+                        for i in 1..=n {
+                            v.push(bez2(cur, p64(c), p64(p), i as f64 / n as f64));
+                        }
+                    }
+                    ASeg::C(c1, c2, p) => {
+                        for i in 1..=n {
+                            v.push(bez3(cur, p64(c1), p64(c2), p64(p), i as f64 / n as f64));
+                        }
+                    }
+                }
+                cur = p64(aseg_to(g));
+            }
+            v
+        })
+        .collect()
+}
+
+/// signed turns of the closed polylines around p (positive from +x towards +y); None if the angle sum is not
+/// within 1e-6 of a whole number of turns (p on the outline)
+fn aturns(p: F2, polys: &[Vec<F2>]) -> Option<i32> {
+    let mut total = 0.0f64;
+    for s in polys {
+        for i in 0..s.len() {
+            let (a, b) = (s[i], s[(i + 1) % s.len()]);
+            let (ax, ay) = (a.0 - p.0, a.1 - p.1);
+            let (bx, by) = (b.0 - p.0, b.1 - p.1);
+            total += (ax * by - ay * bx).atan2(ax * bx + ay * by);
+        }
+    }
+    let t = total / (2.0 * std::f64::consts::PI);
+    if (t - t.round()).abs() > 1e-6 {
+        return None;
+    }
+    Some(t.round() as i32)
+}
+
+fn aseg_dist(p: F2, a: F2, b: F2) -> f64 {
+    let (vx, vy) = (b.0 - a.0, b.1 - a.1);
+    let (wx, wy) = (p.0 - a.0, p.1 - a.1);
+    let l2 = vx * vx + vy * vy;
+    let t = if l2 > 0.0 { ((wx * vx + wy * vy) / l2).max(0.0).min(1.0) } else { 0.0 };
+    let (dx, dy) = (wx - t * vx, wy - t * vy);
+    (dx * dx + dy * dy).sqrt()
+}
+
+fn adist(p: F2, polys: &[Vec<F2>]) -> f64 {
+    let mut d = f64::MAX;
+    for s in polys {
+        for i in 0..s.len() {
+            d = d.min(aseg_dist(p, s[i], s[(i + 1) % s.len()]));
+        }
+    }
+    d
+}
+
+/// (signed shoelace area, perimeter, sum of the absolute fan terms) of one closed polyline
+fn aarea(s: &[F2]) -> (f64, f64, f64) {
+    let (mut a2, mut per, mut gross2) = (0.0f64, 0.0f64, 0.0f64);
+    let o = s[0];
+    for i in 0..s.len() {
+        let (a, b) = (s[i], s[(i + 1) % s.len()]);
+        let t = (a.0 - o.0) * (b.1 - o.1) - (b.0 - o.0) * (a.1 - o.1);
+        a2 += t;
+        gross2 += t.abs();
+        per += (b.0 - a.0).hypot(b.1 - a.1);
+    }
+    (a2 / 2.0, per, gross2 / 2.0)
+}
+
+/// parameters in (0, 1) where the y coordinate of a quadratic (3 values) / cubic (4 values) is stationary
+fn ay_extrema(ys: &[f64]) -> Vec<f64> {
+    let mut out = Vec::new();
+    let mut push = |t: f64| {
+        if t > 0.0 && t < 1.0 {
+            out.push(t)
+        }
+    };
+    if ys.len() == 3 {
+        let d = ys[0] - 2.0 * ys[1] + ys[2];
+        if d != 0.0 {
+            push((ys[0] - ys[1]) / d);
+        }
+    } else {
+        let a = -ys[0] + 3.0 * ys[1] - 3.0 * ys[2] + ys[3];
+        let b = 2.0 * (ys[0] - 2.0 * ys[1] + ys[2]);
+        let c = ys[1] - ys[0];
+        if a == 0.0 {
+            if b != 0.0 {
+                push(-c / b);
+            }
+        } else {
+            let disc = b * b - 4.0 * a * c;
+            if disc >= 0.0 {
+                let q = disc.sqrt();
+                push((-b + q) / (2.0 * a));
+                if q > 0.0 {
+                    push((-b - q) / (2.0 * a));
+                }
+            }
+        }
+    }
+    out
+}
+
+fn ulp_step(v: f32, up: bool) -> f32 {
+    if v == 0.0 {
+        return if up { f32::from_bits(1) } else { -f32::from_bits(1) };
+    }
+    let b = v.to_bits();
+    f32::from_bits(if (v > 0.0) == up { b + 1 } else { b - 1 })
+}
+
+/// lyon's own flattening of the path (the function the hit test calls), used ONLY to pick query levels and to
+/// attribute a failure to the flattening's deviation, never as the expectation; `swap`: curves flattened from their
+/// end (what the fill tessellator does for curves that run upwards)
+fn alyon_flat(subs: &[ASub], tol: f32, swap: bool) -> Vec<Vec<F2>> {
+    use lyon_path::geom::{CubicBezierSegment, QuadraticBezierSegment};
+    subs.iter()
+        .map(|s| {
+            let mut v = vec![p64(s.start)];
+            let mut cur = s.start;
+            for g in &s.segs {
+                let mut piece: Vec<F2> = Vec::new();
+                match *g {
+                    ASeg::L(p) => piece.push(p64(p)),
+                    ASeg::Q(c, p) => {
+                        if swap {
+                            piece.push(p64(p));
+                            QuadraticBezierSegment { from: p, ctrl: c, to: cur }.for_each_flattened(tol, &mut |l| piece.push(p64(l.to)));
+                        } else {
+                            QuadraticBezierSegment { from: cur, ctrl: c, to: p }.for_each_flattened(tol, &mut |l| piece.push(p64(l.to)));
+                        }
+                    }
+                    ASeg::C(c1, c2, p) => {
+                        if swap {
+                            piece.push(p64(p));
+                            CubicBezierSegment { from: p, ctrl1: c2, ctrl2: c1, to: cur }.for_each_flattened(tol, &mut |l| piece.push(p64(l.to)));
+                        } else {
+                            CubicBezierSegment { from: cur, ctrl1: c1, ctrl2: c2, to: p }.for_each_flattened(tol, &mut |l| piece.push(p64(l.to)));
+                        }
+                    }
+                }
+                if swap && !matches!(g, ASeg::L(_)) {
+                    piece.pop(); // == cur
+                    piece.reverse();
+                }
+                v.extend(piece);
+                cur = aseg_to(g);
+            }
+            v
+        })
+        .collect()
+}
+
+/// K2 (DESIGN): a degenerate / overshooting / hairpin (sub-)quadratic, on which the step count is known to be too small
+fn ak2_quad(q: &lyon_path::geom::QuadraticBezierSegment<f32>) -> bool {
+    if q.from == q.to {
+        return q.ctrl != q.from;
+    }
+    let (bx, by) = ((q.to.x - q.from.x) as f64, (q.to.y - q.from.y) as f64);
+    let (cx, cy) = ((q.ctrl.x - q.from.x) as f64, (q.ctrl.y - q.from.y) as f64);
+    let t = (cx * bx + cy * by) / (bx * bx + by * by);
+    if t < 0.0 || t > 1.0 {
+        return true;
+    }
+    let (ux, uy) = (-cx, -cy);
+    let (vx, vy) = ((q.to.x - q.ctrl.x) as f64, (q.to.y - q.ctrl.y) as f64);
+    let (lu, lv) = ((ux * ux + uy * uy).sqrt(), (vx * vx + vy * vy).sqrt());
+    lu > 0.0 && lv > 0.0 && (ux * vx + uy * vy) / (lu * lv) > 0.906
+}
+
+fn ahas_k2(subs: &[ASub], tol: f32) -> bool {
+    use lyon_path::geom::{CubicBezierSegment, QuadraticBezierSegment};
+    let mut k2 = false;
+    for s in subs {
+        let mut cur = s.start;
+        for g in &s.segs {
+            match *g {
+                ASeg::L(_) => {}
+                ASeg::Q(c, p) => k2 |= ak2_quad(&QuadraticBezierSegment { from: cur, ctrl: c, to: p }) || ak2_quad(&QuadraticBezierSegment { from: p, ctrl: c, to: cur }),
+                ASeg::C(c1, c2, p) => {
+                    CubicBezierSegment { from: cur, ctrl1: c1, ctrl2: c2, to: p }.for_each_quadratic_bezier(tol * 0.4, &mut |q| k2 |= ak2_quad(q));
+                    CubicBezierSegment { from: p, ctrl1: c2, ctrl2: c1, to: cur }.for_each_quadratic_bezier(tol * 0.4, &mut |q| k2 |= ak2_quad(q));
+                }
+            }
+            cur = aseg_to(g);
+        }
+    }
+    k2
+}
+
+/// Known-finding class of a disagreement that is explained by the flattening lying farther than the tolerance from the
+/// curve (C09's findings K2 / K6): the library's answer is the right one for its own flattening, and that flattening
+/// deviates from the fine polyline by more than the tolerance.  None: not explained that way.
+fn aattribute(subs: &[ASub], fine: &[Vec<F2>], tol: f32, q: F2, lyon_w: Option<i32>) -> Option<&'static str> {
+    let mut dev = 0.0f64;
+    let mut consistent = lyon_w.is_none();
+    for swap in [false, true] {
+        let lf = catch(std::panic::AssertUnwindSafe(|| alyon_flat(subs, tol, swap)))?;
+        if !swap {
+            if let (Some(w), Some(t)) = (lyon_w, aturns(q, &lf)) {
+                consistent = w == -t;
+            }
+        }
+        for s in &lf {
+            for i in 0..s.len() {
+                let (a, b) = (s[i], s[(i + 1) % s.len()]);
+                for k in 0..8 {
+                    let u = k as f64 / 8.0;
+                    dev = dev.max(adist((a.0 + u * (b.0 - a.0), a.1 + u * (b.1 - a.1)), fine));
+                }
+            }
+        }
+    }
+    if !consistent || dev <= tol as f64 {
+        return None;
+    }
+    if ahas_k2(subs, tol) {
+        return Some("K2");
+    }
+    let (mut lo, mut hi) = ((f64::MAX, f64::MAX), (f64::MIN, f64::MIN));
+    for s in fine {
+        for p in s {
+            lo = (lo.0.min(p.0), lo.1.min(p.1));
+            hi = (hi.0.max(p.0), hi.1.max(p.1));
+        }
+    }
+    let factor = if tol as f64 > 0.1 * (hi.0 - lo.0).max(hi.1 - lo.1) { 2.0 } else { 1.5 };
+    if dev <= factor * tol as f64 + 1e-9 {
+        Some("K6")
+    } else {
+        None
+    }
+}
+
+fn afail(st: &mut Stats, what: &str, input: String, class: Option<&str>) {
+    let mut fields = vec![("what", jstr(what)), ("input", jstr(&input))];
+    if let Some(c) = class {
+        fields.push(("class", jstr(c)));
+    }
+    st.fail(jobj(&fields));
+}
+
+fn afill(path: &Path, rule: FillRule, tol: f32) -> Option<(Vec<Point>, Vec<(u32, u32, u32)>)> {
+    catch(std::panic::AssertUnwindSafe(|| {
+        use lyon_tessellation::geometry_builder::{BuffersBuilder, Positions, VertexBuffers};
+        let mut buffers: VertexBuffers<Point, u32> = VertexBuffers::new();
+        let ok = lyon_tessellation::FillTessellator::new()
+            .tessellate_path(path, &lyon_tessellation::FillOptions::tolerance(tol).with_fill_rule(rule), &mut BuffersBuilder::new(&mut buffers, Positions))
+            .is_ok();
+        if !ok {
+            return None;
+        }
+        Some((buffers.vertices.clone(), buffers.indices.chunks(3).map(|t| (t[0], t[1], t[2])).collect::<Vec<_>>()))
+    }))
+    .flatten()
+}
+
+struct Special {
+    p: Point,
+    kind: &'static str,
+}
+
+fn aspecials(subs: &[ASub], tol: f32, r: &mut Rng) -> Vec<Special> {
+    use lyon_path::geom::{CubicBezierSegment, QuadraticBezierSegment};
+    let mut out = Vec::new();
+    let mut flat: Vec<Point> = Vec::new();
+    for s in subs {
+        out.push(Special { p: s.start, kind: "endpoint" });
+        let mut cur = s.start;
+        for g in &s.segs {
+            let to = aseg_to(g);
+            out.push(Special { p: to, kind: "endpoint" });
+            let ctrl: Vec<Point> = match *g {
+                ASeg::L(_) => vec![],
+                ASeg::Q(c, _) => vec![c],
+                ASeg::C(c1, c2, _) => vec![c1, c2],
+            };
+            if !ctrl.is_empty() {
+                let mut poly = vec![cur];
+                poly.extend(ctrl.iter().copied());
+                poly.push(to);
+                for c in &ctrl {
+                    out.push(Special { p: *c, kind: "ctrl" });
+                }
+                let top = poly.iter().copied().fold(poly[0], |m, p| if p.y < m.y { p } else { m });
+                let bot = poly.iter().copied().fold(poly[0], |m, p| if p.y > m.y { p } else { m });
+                out.push(Special { p: top, kind: "boxmin" });
+                out.push(Special { p: bot, kind: "boxmax" });
+                let ys: Vec<f64> = poly.iter().map(|p| p.y as f64).collect();
+                for t in ay_extrema(&ys) {
+                    // the library's own sample at the extremum parameter (bit for bit), and the f64 value rounded
+                    let (s32, s64) = match *g {
+                        ASeg::Q(c, p) => (QuadraticBezierSegment { from: cur, ctrl: c, to: p }.sample(t as f32), bez2(p64(cur), p64(c), p64(p), t)),
+                        ASeg::C(c1, c2, p) => (CubicBezierSegment { from: cur, ctrl1: c1, ctrl2: c2, to: p }.sample(t as f32), bez3(p64(cur), p64(c1), p64(c2), p64(p), t)),
+                        ASeg::L(_) => unreachable!(),
+                    };
+                    out.push(Special { p: s32, kind: "extremum" });
+                    out.push(Special { p: point(s64.0 as f32, s64.1 as f32), kind: "extremum64" });
+                }
+                // vertices of the library's flattening at this tolerance: the levels where the half-open rule works
+                // INSIDE a curve
+                let before = flat.len();
+                let _ = catch(std::panic::AssertUnwindSafe(|| match *g {
+                    ASeg::Q(c, p) => QuadraticBezierSegment { from: cur, ctrl: c, to: p }.for_each_flattened(tol, &mut |l| flat.push(l.to)),
+                    ASeg::C(c1, c2, p) => CubicBezierSegment { from: cur, ctrl1: c1, ctrl2: c2, to: p }.for_each_flattened(tol, &mut |l| flat.push(l.to)),
+                    ASeg::L(_) => {}
+                }));
+                if flat.len() > before {
+                    flat.pop(); // the end point is listed already
+                }
+            }
+            cur = to;
+        }
+    }
+    for _ in 0..flat.len().min(10) {
+        let p = *r.pick(&flat);
+        out.push(Special { p, kind: "flatvertex" });
+    }
+    out
+}
+
+/// All C18 observations on one curved path.  `simple`: the sub-paths are simple closed curves by construction (the
+/// precondition under which compute_winding's result is specified).
+fn audit_path(st: &mut Stats, r: &mut Rng, subs: &[ASub], family: &str, simple: bool, tol: f32, nq: usize) {
+    let text = format!("[{}] tolerance {} :: {}", family, tol, apath_text(subs));
+    st.inc("audit_paths");
+    st.inc(&format!("audit_family_{}", family));
+    let path = match catch(std::panic::AssertUnwindSafe(|| apath_build(subs))) {
+        Some(p) => p,
+        None => {
+            afail(st, "audit: builder panicked", text, None);
+            return;
+        }
+    };
+    let fine = afine(subs, AUDIT_N);
+    let specials = aspecials(subs, tol, r);
+    let (mut lo, mut hi) = (point(f32::MAX, f32::MAX), point(f32::MIN, f32::MIN));
+    for s in &specials {
+        lo = point(lo.x.min(s.p.x), lo.y.min(s.p.y));
+        hi = point(hi.x.max(s.p.x), hi.y.max(s.p.y));
+    }
+    let ext = (hi.x - lo.x).max(hi.y - lo.y).max(1.0);
+    let rx = |r: &mut Rng| lo.x - 0.15 * ext + (r.unit_f64() as f32) * (hi.x - lo.x + 0.3 * ext);
+    let ry = |r: &mut Rng| lo.y - 0.15 * ext + (r.unit_f64() as f32) * (hi.y - lo.y + 0.3 * ext);
+    // ---- query points
+    let mut queries: Vec<(Point, &'static str, String)> = Vec::new();
+    for _ in 0..(nq / 5) {
+        queries.push((point(rx(r), ry(r)), "random", "random".into()));
+    }
+    for k in 0..(nq / 10) {
+        let big = *r.pick(&[1.0e3f32, 1.0e4, 1.0e6]);
+        let sy = r.pick(&specials).p.y;
+        queries.push(match k % 4 {
+            0 => (point(hi.x + big, sy), "far", "far right, level with a special point".to_string()),
+            1 => (point(lo.x - big, sy), "far", "far left, level with a special point".to_string()),
+            2 => (point(rx(r), hi.y + big), "far", "far below".to_string()),
+            _ => (point(rx(r), lo.y - big), "far", "far above".to_string()),
+        });
+    }
+    while queries.len() < nq {
+        let s = r.pick(&specials);
+        let d = *r.pick(&[tol + 2.0e-3, 2.0 * tol + 0.01, 0.5, 1.0, 4.0]);
+        let q = match r.below(8) {
+            0 | 1 => (point(rx(r), s.p.y), "level", format!("level with {}", s.kind)),
+            2 => (point(s.p.x - d, s.p.y), "left", format!("exactly left of {} by {}", s.kind, d)),
+            3 => (point(s.p.x + d, s.p.y), "right", format!("exactly right of {} by {}", s.kind, d)),
+            4 => (s.p, "at", format!("at {}", s.kind)),
+            5 => {
+                let up = r.chance(1, 2);
+                (point(if r.chance(1, 2) { rx(r) } else { hi.x + 3.0 }, ulp_step(s.p.y, up)), "ulp", format!("one ulp {} the level of {}", if up { "below (larger y)" } else { "above (smaller y)" }, s.kind))
+            }
+            6 => (point(hi.x + 2.0 + d, s.p.y), "right_of_all", format!("right of everything, level with {}", s.kind)),
+            _ => (point(s.p.x, ry(r)), "above_below", format!("exactly above / below {}", s.kind)),
+        };
+        queries.push(q);
+    }
+    // ---- the fill of the same path under both rules
+    let rules = [FillRule::EvenOdd, FillRule::NonZero];
+    let fills: Vec<Option<(Vec<Point>, Vec<(u32, u32, u32)>)>> = rules.iter().map(|rule| afill(&path, *rule, tol)).collect();
+    for f in &fills {
+        st.inc(if f.is_some() { "audit_fills" } else { "audit_fill_unavailable" });
+    }
+    let rev_path: Option<Path> = catch(std::panic::AssertUnwindSafe(|| path.reversed().collect::<Path>()));
+    let margin = tol as f64 + 1e-3;
+    let mut nonzero = false;
+    let mut judged = 0usize;
+    for (q, class, kind) in &queries {
+        let qf = p64(*q);
+        let d = adist(qf, &fine);
+        if !(d > margin) {
+            st.inc("audit_queries_near_outline_skipped");
+            continue;
+        }
+        let turns = match aturns(qf, &fine) {
+            Some(t) => t,
+            None => {
+                st.inc("audit_reference_undecided");
+                continue;
+            }
+        };
+        let want = -turns;
+        nonzero |= want != 0;
+        judged += 1;
+        st.inc("audit_queries");
+        st.inc(&format!("audit_q_{}", class));
+        if let Some(sk) = kind.rsplit(' ').next().filter(|k| ["endpoint", "ctrl", "boxmin", "boxmax", "extremum", "extremum64", "flatvertex"].contains(k)) {
+            st.inc(&format!("audit_qs_{}", sk));
+        }
+        let here = |extra: String| format!("{} at ({}, {}) [{}; distance to the outline {:.5}] {}", text, q.x, q.y, kind, d, extra);
+        let got = catch(std::panic::AssertUnwindSafe(|| {
+            (
+                path_winding_number_at_position(q, path.iter(), tol),
+                hit_test_path(q, path.iter(), FillRule::EvenOdd, tol),
+                hit_test_path(q, path.iter(), FillRule::NonZero, tol),
+            )
+        }));
+        let (w, eo, nz) = match got {
+            Some(x) => x,
+            None => {
+                afail(st, "audit: hit test panicked", here(String::new()), None);
+                continue;
+            }
+        };
+        let mut hit_ok = true;
+        if w != want {
+            hit_ok = false;
+            let class = aattribute(subs, &fine, tol, qf, Some(w));
+            afail(st, "audit: winding number differs from the signed turns of the fine flattening around the point", here(format!("reported {} expected {}", w, want)), class);
+        }
+        if eo != (w % 2 != 0) || nz != (w != 0) || eo != FillRule::EvenOdd.is_in(w as i16) || nz != FillRule::NonZero.is_in(w as i16) {
+            afail(st, "audit: hit test is not the fill rule applied to the reported winding number", here(format!("winding {} EvenOdd {} NonZero {}", w, eo, nz)), None);
+        }
+        // the reversed path turns the other way round the same point
+        if judged % 4 == 1 {
+            if let Some(rp) = &rev_path {
+                st.inc("audit_reversed_queries");
+                match catch(std::panic::AssertUnwindSafe(|| path_winding_number_at_position(q, rp.iter(), tol))) {
+                    None => afail(st, "audit: hit test of the reversed path panicked", here(String::new()), None),
+                    Some(rw) => {
+                        if rw != -want {
+                            let rsubs: Vec<ASub> = subs.iter().map(asub_reversed).collect();
+                            let class = aattribute(&rsubs, &fine, tol, qf, Some(rw));
+                            afail(st, "audit: winding number of the reversed path is not the opposite number of turns", here(format!("reported {} expected {}", rw, -want)), class);
+                        }
+                    }
+                }
+            }
+        }
+        // ... which is also exactly where the fill tessellation puts triangles
+        if hit_ok {
+            for (k, hit) in [eo, nz].iter().enumerate() {
+                if let Some((pos, tris)) = &fills[k] {
+                    let (closed, open) = crate::c01::cover_f64(qf, pos, tris);
+                    st.inc("audit_fill_queries");
+                    if (*hit && closed == 0) || (!*hit && open > 0) {
+                        let class = aattribute(subs, &fine, tol, qf, None);
+                        afail(
+                            st,
+                            "audit: the fill tessellation does not cover the point exactly when the hit test is true",
+                            here(format!("{:?}: hit {} winding {} triangles containing the point: {} closed, {} open", rules[k], hit, w, closed, open)),
+                            class,
+                        );
+                    }
+                }
+            }
+        }
+    }
+    st.note_case(&text, nonzero);
+    // ---- signed area, reversal, reported winding direction
+    let per_sub: Vec<(f64, f64, f64)> = fine.iter().map(|s| aarea(s)).collect();
+    // bound: (perimeter x tolerance) for the flattening, plus the rounding of an f32 fan sum (1e-4 of the absolute terms)
+    let bound_of = |a: &(f64, f64, f64)| a.1 * tol as f64 + 1e-4 * a.2 + 1e-4;
+    let total: f64 = per_sub.iter().map(|a| a.0).sum();
+    let total_bound: f64 = per_sub.iter().map(|a| bound_of(a)).sum();
+    let res = catch(std::panic::AssertUnwindSafe(|| {
+        let mut areas = Vec::new();
+        let mut it = path.iter();
+        while let Some(a) = approximate_sub_path_signed_area(tol, &mut it) {
+            areas.push(a);
+        }
+        let mut winds = Vec::new();
+        let mut it = path.iter();
+        while let Some(w) = compute_winding(&mut it) {
+            winds.push(w);
+        }
+        (approximate_signed_area(tol, path.iter()), areas, winds)
+    }));
+    let (area, areas, winds) = match res {
+        Some(x) => x,
+        None => {
+            afail(st, "audit: signed area / compute_winding panicked", text, None);
+            return;
+        }
+    };
+    st.inc("audit_area_checks");
+    if !((area as f64 - total).abs() <= total_bound) {
+        let class = aattribute(subs, &fine, tol, (0.0, 0.0), None);
+        afail(st, "audit: signed area differs from the shoelace area of the fine flattening by more than perimeter x tolerance", format!("{}: reported {} fine {} bound {}", text, area, total, total_bound), class);
+    }
+    if areas.len() != subs.len() || winds.len() != subs.len() {
+        afail(st, "audit: not one area / winding per sub-path", format!("{}: {} areas {} windings", text, areas.len(), winds.len()), None);
+        return;
+    }
+    for (i, a) in per_sub.iter().enumerate() {
+        let b = bound_of(a);
+        if !((areas[i] as f64 - a.0).abs() <= b) {
+            let class = aattribute(subs, &fine, tol, (0.0, 0.0), None);
+            afail(st, "audit: signed area of a sub-path differs from the shoelace area of its fine flattening by more than perimeter x tolerance", format!("{} sub-path {}: reported {} fine {} bound {}", text, i, areas[i], a.0, b), class);
+        }
+        // the sign of the area is the reported direction, when the area is well above the bound
+        if a.0.abs() > 10.0 * b + 0.5 {
+            let want = if a.0 > 0.0 { Winding::Positive } else { Winding::Negative };
+            if (areas[i] > 0.0) != (a.0 > 0.0) {
+                afail(st, "audit: the signed area of a sub-path has the wrong sign", format!("{} sub-path {}: reported {} fine {}", text, i, areas[i], a.0), None);
+            }
+            if simple {
+                st.inc("audit_winding_direction_checks");
+                if winds[i] != want {
+                    afail(st, "audit: compute_winding of a simple curved sub-path is not the sign of its area", format!("{} sub-path {}: reported {:?}, area {} (fine flattening {})", text, i, winds[i], areas[i], a.0), None);
+                }
+            } else {
+                // sub-paths that may intersect themselves: compute_winding's documentation leaves the result unspecified
+                st.inc(if winds[i] == want { "audit_obs_winding_agrees_on_unrestricted_subpath" } else { "audit_obs_winding_differs_on_unrestricted_subpath" });
+            }
+        }
+    }
+    // reversed path: the area changes sign (each against the fine flattening: the two flattenings are not mirror images)
+    if let Some(rp) = &rev_path {
+        match catch(std::panic::AssertUnwindSafe(|| approximate_signed_area(tol, rp.iter()))) {
+            None => afail(st, "audit: signed area of the reversed path panicked", text.clone(), None),
+            Some(ra) => {
+                st.inc("audit_reversed_area_checks");
+                if !((ra as f64 + total).abs() <= total_bound) || (total.abs() > 10.0 * total_bound + 0.5 && (ra > 0.0) == (area > 0.0)) {
+                    let class = aattribute(&subs.iter().map(asub_reversed).collect::<Vec<_>>(), &fine, tol, (0.0, 0.0), None);
+                    afail(st, "audit: the signed area of the reversed path is not the negated area", format!("{}: {} reversed {} fine {} bound {}", text, area, ra, total, total_bound), class);
+                }
+                if simple {
+                    let mut it = rp.iter();
+                    let mut rw = Vec::new();
+                    while let Some(w) = compute_winding(&mut it) {
+                        rw.push(w);
+                    }
+                    // sub-paths come out in reverse order
+                    rw.reverse();
+                    for (i, a) in per_sub.iter().enumerate() {
+                        if a.0.abs() > 10.0 * bound_of(a) + 0.5 && rw.get(i).copied() == Some(winds[i]) {
+                            afail(st, "audit: reversing a simple curved sub-path does not flip compute_winding", format!("{} sub-path {}: {:?} both ways", text, i, winds[i]), None);
+                        }
+                    }
+                }
+            }
+        }
+    } else {
+        afail(st, "audit: Path::reversed panicked", text.clone(), None);
+    }
+}
+
+fn agrid(r: &mut Rng) -> Point {
+    point(r.range(-12, 12) as f32, r.range(-12, 12) as f32)
+}
+
+fn arandom_seg(r: &mut Rng, curves_only: bool) -> ASeg {
+    match r.below(if curves_only { 2 } else { 3 }) {
+        0 => ASeg::Q(agrid(r), agrid(r)),
+        1 => ASeg::C(agrid(r), agrid(r), agrid(r)),
+        _ => ASeg::L(agrid(r)),
+    }
+}
+
+/// (sub-paths, family, simple closed sub-paths by construction)
+fn agen(r: &mut Rng) -> (Vec<ASub>, &'static str, bool) {
+    let f = |x: i64, y: i64| point(x as f32, y as f32);
+    match r.below(12) {
+        0 | 1 => {
+            // random chains of quadratic / cubic / line segments on a small grid (coincident levels are frequent)
+            let n = 1 + r.below(3);
+            let subs = (0..n)
+                .map(|_| ASub { start: agrid(r), segs: (0..(1 + r.below(4))).map(|_| arandom_seg(r, false)).collect(), close: r.chance(1, 2) })
+                .collect();
+            (subs, "random", false)
+        }
+        2 => {
+            // loops: the control polygon crosses itself
+            let (a, b) = (r.range(3, 12), r.range(3, 12));
+            let dx = *r.pick(&[0i64, 0, 2, -2, 5]);
+            let mut segs = vec![ASeg::C(f(a, b), f(-a, b), f(dx, 0))];
+            if r.chance(1, 2) {
+                segs.push(arandom_seg(r, false));
+            }
+            (vec![ASub { start: f(0, 0), segs, close: r.chance(1, 2) }], "loop", false)
+        }
+        3 => {
+            // cusps: (0,0) (w,h) (0,h) (w,0) has a cusp at t = 1/2; also the degenerate hairpin ctrl1 == ctrl2
+            let (w, h) = (r.range(2, 12), r.range(2, 12));
+            let segs = match r.below(3) {
+                0 => vec![ASeg::C(f(w, h), f(0, h), f(w, 0))],
+                1 => vec![ASeg::C(f(w, h), f(0, h), f(w, 0)), ASeg::L(f(w, -6)), ASeg::L(f(0, -6))],
+                _ => vec![ASeg::C(f(w / 2, h), f(w / 2, h), f(w, 0)), ASeg::Q(f(w / 2, -h), f(0, 0))],
+            };
+            (vec![ASub { start: f(0, 0), segs, close: r.chance(1, 2) }], "cusp", false)
+        }
+        4 => {
+            // S-shapes: control points far above / below the curve's own extent
+            let (w, h1, h2) = (r.range(4, 12), r.range(2, 12), r.range(2, 12));
+            let e = r.range(-3, 3);
+            let mut segs = vec![ASeg::C(f(r.range(0, w), h1), f(r.range(0, w), -h2), f(w, e))];
+            match r.below(3) {
+                0 => {}
+                1 => {
+                    segs.push(ASeg::L(f(w, -12)));
+                    segs.push(ASeg::L(f(0, -12)));
+                }
+                _ => segs.push(ASeg::C(f(r.range(0, w), -h1), f(r.range(0, w), h2), f(0, 0))),
+            }
+            (vec![ASub { start: f(0, 0), segs, close: r.chance(1, 2) }], "s_shape", false)
+        }
+        5 => {
+            // bumps: control points well beyond the curve (the bounding-range early-out is passed, the flattening decides)
+            let (w, h) = (r.range(2, 6) * 2, r.range(4, 12));
+            let mut segs = Vec::new();
+            let mut x = 0;
+            let mut sgn = if r.chance(1, 2) { 1 } else { -1 };
+            for _ in 0..(1 + r.below(3)) {
+                if r.chance(1, 2) {
+                    segs.push(ASeg::Q(f(x + w / 2 + r.range(-1, 1), sgn * h), f(x + w, 0)));
+                } else {
+                    segs.push(ASeg::C(f(x + r.range(-2, 2), sgn * h), f(x + w + r.range(-2, 2), sgn * h), f(x + w, r.range(-1, 1))));
+                }
+                x += w;
+                if r.chance(2, 3) {
+                    sgn = -sgn;
+                }
+            }
+            if r.chance(1, 2) {
+                segs.push(ASeg::L(f(x, r.range(-12, 12))));
+            }
+            (vec![ASub { start: f(0, 0), segs, close: r.chance(1, 2) }], "bumps", false)
+        }
+        6 | 7 => {
+            // two pieces meeting exactly at a level: going through (monotone) or turning back (extremum), with a
+            // horizontal, slanted or overshooting arrival, optionally with a horizontal edge in between
+            let yj = r.range(-4, 4);
+            let (h1, h2) = (r.range(2, 8), r.range(2, 8));
+            let (ya, yb) = match r.below(4) {
+                0 => (yj - h1, yj + h2),
+                1 => (yj + h1, yj - h2),
+                2 => (yj - h1, yj - h2),
+                _ => (yj + h1, yj + h2),
+            };
+            let (xa, xj, xb) = (-8 - r.range(0, 4), r.range(-2, 2), 8 + r.range(0, 4));
+            let mut segs = Vec::new();
+            let cy = |r: &mut Rng, yo: i64| -> i64 {
+                match r.below(4) {
+                    0 => yj,                                     // horizontal tangent at the junction
+                    1 => (yo + yj) / 2,                          // between
+                    2 => yj + (yj - yo).signum() * r.range(1, 6), // beyond the junction's level: the piece has its own extremum
+                    _ => yo - (yj - yo).signum() * r.range(1, 6), // beyond the far end
+                }
+            };
+            let piece = |r: &mut Rng, from: (i64, i64), to: (i64, i64), yo: i64, near_first: bool| -> ASeg {
+                let (x0, x1) = (from.0.min(to.0), from.0.max(to.0));
+                match r.below(4) {
+                    0 => ASeg::L(f(to.0, to.1)),
+                    1 => ASeg::Q(f(r.range(x0, x1), cy(r, yo)), f(to.0, to.1)),
+                    _ => {
+                        let near = f(r.range(x0, x1), cy(r, yo));
+                        let far = f(r.range(x0, x1), r.range(yo.min(yj) - 3, yo.max(yj) + 3));
+                        if near_first {
+                            ASeg::C(near, far, f(to.0, to.1))
+                        } else {
+                            ASeg::C(far, near, f(to.0, to.1))
+                        }
+                    }
+                }
+            };
+            segs.push(piece(r, (xa, ya), (xj, yj), ya, false));
+            let mut xs = xj;
+            if r.chance(1, 4) {
+                xs = xj + r.range(1, 3);
+                segs.push(ASeg::L(f(xs, yj)));
+            }
+            segs.push(piece(r, (xs, yj), (xb, yb), yb, true));
+            let close = match r.below(3) {
+                0 => false,
+                1 => true,
+                _ => {
+                    let far = if r.chance(1, 2) { 14 } else { -14 };
+                    segs.push(ASeg::L(f(xb, far)));
+                    segs.push(ASeg::L(f(xa, far)));
+                    true
+                }
+            };
+            (vec![ASub { start: f(xa, ya), segs, close }], "junction", false)
+        }
+        8 => {
+            // star-shaped closed paths around a centre (simple by construction)
+            let k = 3 + r.below(4) as usize;
+            let dir = if r.chance(1, 2) { 1.0f32 } else { -1.0 };
+            let rad = 5.0 + r.below(8) as f32;
+            let ctr = f(r.range(-3, 3), r.range(-3, 3));
+            let at = |ang: f32, rr: f32| ctr + vector(ang.cos(), ang.sin()) * rr;
+            let step = dir * std::f32::consts::TAU / k as f32;
+            let a0 = r.unit_f64() as f32 * 6.0;
+            let mut segs = Vec::new();
+            for i in 0..k {
+                let (s, e) = (a0 + step * i as f32, a0 + step * (i + 1) as f32);
+                let end = if i + 1 == k { at(a0, rad) } else { at(e, rad) };
+                let mut rr = || rad * (0.7 + 0.6 * r.unit_f64() as f32);
+                segs.push(match i % 3 {
+                    0 => ASeg::C(at(s + step / 3.0, rr()), at(s + 2.0 * step / 3.0, rr()), end),
+                    1 => ASeg::Q(at(s + step / 2.0, rr()), end),
+                    _ => ASeg::L(end),
+                });
+            }
+            (vec![ASub { start: at(a0, rad), segs, close: true }], "star", true)
+        }
+        9 if r.chance(1, 2) => {
+            // notched rectangles (simple by construction): a W x H rectangle whose first side is the cubic
+            // (0,0) (0,h) (W,h) (W,0), a bump of height 0.75 h < H into the rectangle; the area is W*H - 0.6*W*h
+            let (w, hh) = (r.range(4, 12), r.range(2, 8));
+            let h = hh as f32 * (0.3 + r.unit_f64() as f32);
+            let dir = r.chance(1, 2);
+            let mut segs = vec![ASeg::C(point(0.0, h), point(w as f32, h), f(w, 0)), ASeg::L(f(w, hh)), ASeg::L(f(0, hh))];
+            if r.chance(1, 2) {
+                segs.push(ASeg::L(f(0, 0)));
+            }
+            let sub = ASub { start: f(0, 0), segs, close: true };
+            (vec![if dir { sub } else { asub_reversed(&sub) }], "notched", true)
+        }
+        9 => {
+            // concave-sided polygons (deltoid-like, simple by construction): each side of a regular k-gon is a curve
+            // whose control point(s) lie on the segment from the side's midpoint towards the centre; the curves stay
+            // in their own sector and meet only at the corners
+            let k = 3 + r.below(4) as usize;
+            let dir = if r.chance(1, 2) { 1.0f32 } else { -1.0 };
+            let rad = 6.0 + r.below(7) as f32;
+            let ctr = f(r.range(-3, 3), r.range(-3, 3));
+            let a0 = r.unit_f64() as f32 * 6.0;
+            let step = dir * std::f32::consts::TAU / k as f32;
+            let at = |i: usize| ctr + vector((a0 + step * i as f32).cos(), (a0 + step * i as f32).sin()) * rad;
+            // 0 = midpoint of the side, 1 = centre (beyond the centre neighbouring sides would cross each other)
+            let pull = 0.2 + 0.75 * r.unit_f64() as f32;
+            let cubic = r.chance(1, 2);
+            let mut segs = Vec::new();
+            for i in 0..k {
+                let (a, b) = (at(i), if i + 1 == k { at(0) } else { at(i + 1) });
+                let mid = a.lerp(b, 0.5);
+                let c = mid.lerp(ctr, pull);
+                segs.push(if cubic { ASeg::C(c, c, b) } else { ASeg::Q(c, b) });
+            }
+            (vec![ASub { start: at(0), segs, close: true }], "concave", true)
+        }
+        10 => {
+            // degenerate curves next to ordinary ones: coincident control points, closed curves (from == to),
+            // collinear control polygons that overshoot their end points
+            let a = agrid(r);
+            let b = agrid(r);
+            let seg = match r.below(8) {
+                0 => ASeg::Q(a, b),                                   // ctrl == from
+                1 => ASeg::Q(b, b),                                   // ctrl == to
+                2 => ASeg::Q(b, a),                                   // from == to
+                3 => ASeg::Q(a + (b - a) * 2.0, b),                   // collinear, overshooting
+                4 => ASeg::C(a, b, b),                                // a straight line
+                5 => ASeg::C(b, b, a),                                // out and back
+                6 => ASeg::C(a + (b - a) * 2.0, a - (b - a), b),      // collinear, overshooting both ways
+                _ => ASeg::C(agrid(r), agrid(r), a),                  // closed cubic
+            };
+            // optionally a leading piece that ends where the special piece starts
+            let mut segs = Vec::new();
+            let start = if r.chance(1, 2) {
+                segs.push(match arandom_seg(r, false) {
+                    ASeg::L(_) => ASeg::L(a),
+                    ASeg::Q(c, _) => ASeg::Q(c, a),
+                    ASeg::C(c1, c2, _) => ASeg::C(c1, c2, a),
+                });
+                agrid(r)
+            } else {
+                a
+            };
+            segs.push(seg);
+            for _ in 0..(1 + r.below(2)) {
+                segs.push(arandom_seg(r, false));
+            }
+            let subs = vec![ASub { start, segs, close: r.chance(1, 2) }];
+            (subs, "degenerate", false)
+        }
+        _ => {
+            // several sub-paths: a curved shape with holes / islands in either direction, plus an open stray piece
+            let mut subs = Vec::new();
+            let ctr = f(r.range(-2, 2), r.range(-2, 2));
+            for (i, rad) in [11.0f32, 7.0, 3.0].iter().enumerate() {
+                if i > 0 && r.chance(1, 3) {
+                    continue;
+                }
+                let dir = if r.chance(1, 2) { 1.0f32 } else { -1.0 };
+                let k = 4usize;
+                let a0 = r.below(4) as f32 * std::f32::consts::FRAC_PI_4;
+                let at = |j: usize, rr: f32| ctr + vector((a0 + dir * j as f32 * std::f32::consts::TAU / (2 * k) as f32).cos(), (a0 + dir * j as f32 * std::f32::consts::TAU / (2 * k) as f32).sin()) * rr;
+                let bulge = *r.pick(&[1.0f32, 1.3, 0.8]);
+                let mut segs = Vec::new();
+                for j in 0..k {
+                    let end = if j + 1 == k { at(0, *rad) } else { at(2 * j + 2, *rad) };
+                    segs.push(ASeg::Q(at(2 * j + 1, *rad * bulge), end));
+                }
+                subs.push(ASub { start: at(0, *rad), segs, close: r.chance(3, 4) });
+            }
+            if r.chance(1, 2) {
+                subs.push(ASub { start: agrid(r), segs: vec![arandom_seg(r, true)], close: false });
+            }
+            (subs, "nested", false)
+        }
+    }
+}
+
+fn audit_curved(args: &Args, st: &mut Stats) {
+    let mut rng = Rng::new(args.seed ^ 0xA0D1_7C18);
+    let n = if args.thorough() { 4000 } else { 400 };
+    // hand-made inputs first: the smallest notched rectangle whose control polygon turns the other way (area
+    // 50 - 0.6*10*6 = +14, control polygon 50 - 60 = -10), and two pieces meeting exactly at the level y = 0:
+    // going through, turning back smoothly (horizontal tangent), turning back with the pieces overshooting the level
+    {
+        let f = |x: i64, y: i64| point(x as f32, y as f32);
+        let fixed: Vec<(Vec<ASeg>, bool)> = vec![
+            (vec![ASeg::C(f(0, 6), f(10, 6), f(10, 0)), ASeg::L(f(10, 5)), ASeg::L(f(0, 5))], true),
+            (vec![ASeg::Q(f(-4, 0), f(0, 0)), ASeg::Q(f(4, 0), f(8, 6)), ASeg::L(f(8, -6))], false),
+            (vec![ASeg::Q(f(-4, 0), f(0, 0)), ASeg::C(f(3, 0), f(6, -2), f(8, -6)), ASeg::L(f(0, -12))], false),
+            (vec![ASeg::C(f(-8, 4), f(-2, 3), f(0, 0)), ASeg::C(f(2, 3), f(8, 4), f(8, -6))], false),
+        ];
+        for (i, (segs, simple)) in fixed.into_iter().enumerate() {
+            let start = if i == 0 { f(0, 0) } else { f(-8, -6) };
+            let sub = ASub { start, segs, close: true };
+            for tol in [0.01f32, 0.1] {
+                audit_path(st, &mut rng, &[sub.clone()], "fixed", simple, tol, 40);
+                audit_path(st, &mut rng, &[asub_reversed(&sub)], "fixed", simple, tol, 40);
+            }
+        }
+    }
+    for _ in 0..n {
+        let r = &mut rng;
+        let (mut subs, family, simple) = agen(r);
+        // the same shape elsewhere: mirror images, transposition, dyadic and non-dyadic scales, a rotation
+        let (sx, sy) = (*r.pick(&[1.0f32, 1.0, -1.0]), *r.pick(&[1.0f32, 1.0, -1.0]));
+        let swap = r.chance(1, 4);
+        let scale = *r.pick(&[1.0f32, 1.0, 1.0, 0.5, 2.0, 0.7, 3.3]);
+        let off = if r.chance(1, 3) { vector(r.range(-20, 20) as f32 + 0.1, r.range(-20, 20) as f32 - 0.3) } else { vector(0.0, 0.0) };
+        let ang = if r.chance(1, 6) { r.unit_f64() as f32 * 6.2 } else { 0.0 };
+        let (ca, sa) = (ang.cos(), ang.sin());
+        subs = apath_map(&subs, &|p: Point| {
+            let p = if swap { point(p.y, p.x) } else { p };
+            let p = point(p.x * sx * scale, p.y * sy * scale);
+            let p = if ang != 0.0 { point(p.x * ca - p.y * sa, p.x * sa + p.y * ca) } else { p };
+            p + off
+        });
+        if r.chance(1, 2) {
+            subs = subs.iter().map(asub_reversed).collect();
+            if r.chance(1, 2) {
+                subs.reverse();
+            }
+        }
+        let tol = *r.pick(&[0.001f32, 0.003, 0.01, 0.03, 0.1, 0.1, 0.25, 0.5]);
+        audit_path(st, r, &subs, family, simple, tol, 40);
+    }
+}
+
+/// Shape helpers with a requested `Winding`.  Positive is the direction of positive shoelace area
+/// sum(x_i*y_{i+1} - x_{i+1}*y_i): from +x towards +y, which looks clockwise on a y-down screen.
+fn audit_shapes(args: &Args, st: &mut Stats) {
+    use lyon_path::builder::BorderRadii;
+    let mut rng = Rng::new(args.seed ^ 0x5AA9_E518);
+    let n = if args.thorough() { 1500 } else { 200 };
+    for _ in 0..n {
+        let r = &mut rng;
+        let want = if r.chance(1, 2) { Winding::Positive } else { Winding::Negative };
+        let c = point(r.range(-20, 20) as f32 * 0.5, r.range(-20, 20) as f32 * 0.5);
+        let degenerate = r.chance(1, 5);
+        let dim = |r: &mut Rng| 0.5 + r.range(0, 40) as f32 * 0.25;
+        let which = r.below(5);
+        let tol = *r.pick(&[0.001f32, 0.01, 0.1, 0.5]);
+        let (label, built): (String, Option<Path>) = match which {
+            0 => {
+                let (w, h) = if degenerate { *r.pick(&[(0.0f32, 0.0f32), (0.0, 3.0), (4.0, 0.0)]) } else { (dim(r), dim(r)) };
+                let rect = Box2D { min: c, max: c + vector(w, h) };
+                (format!("add_rectangle({:?}, {:?})", rect, want), catch(|| { let mut b = Path::builder(); b.add_rectangle(&rect, want); b.build() }))
+            }
+            1 => {
+                // a negative radius is taken by its absolute value (add_circle says so in its code)
+                let rad = if degenerate { 0.0 } else { dim(r) * if r.chance(1, 6) { -1.0 } else { 1.0 } };
+                (format!("add_circle({:?}, {}, {:?})", c, rad, want), catch(|| { let mut b = Path::builder(); b.add_circle(c, rad, want); b.build() }))
+            }
+            2 => {
+                let radii = if degenerate { *r.pick(&[vector(0.0f32, 0.0f32), vector(0.0, 3.0), vector(4.0, 0.0)]) } else { vector(dim(r), dim(r)) };
+                let rot = if r.chance(1, 3) { 0.0 } else { r.unit_f64() as f32 * 6.2 - 3.1 };
+                (format!("add_ellipse({:?}, {:?}, {} rad, {:?})", c, radii, rot, want), catch(|| { let mut b = Path::builder(); b.add_ellipse(c, radii, Angle::radians(rot), want); b.build() }))
+            }
+            3 => {
+                let (w, h) = if degenerate { *r.pick(&[(0.0f32, 0.0f32), (0.0, 3.0), (4.0, 0.0), (6.0, 5.0)]) } else { (dim(r), dim(r)) };
+                let rect = Box2D { min: c, max: c + vector(w, h) };
+                let rd = |r: &mut Rng| if degenerate || r.chance(1, 5) { 0.0 } else { r.range(1, 24) as f32 * 0.25 * if r.chance(1, 8) { -1.0 } else { 1.0 } };
+                let radii = if r.chance(1, 2) { BorderRadii::new(rd(r)) } else { BorderRadii { top_left: rd(r), top_right: rd(r), bottom_left: rd(r), bottom_right: rd(r) } };
+                (format!("add_rounded_rectangle({:?}, {}, {:?})", rect, radii, want), catch(|| { let mut b = Path::builder(); b.add_rounded_rectangle(&rect, &radii, want); b.build() }))
+            }
+            _ => {
+                // add_polygon takes no Winding in this version: the direction is that of the points handed in
+                let k = if degenerate { 1 + r.below(2) as usize } else { 3 + r.below(5) as usize };
+                let dir = if want == Winding::Positive { 1.0f32 } else { -1.0 };
+                let a0 = r.unit_f64() as f32 * 6.0;
+                let pts: Vec<Point> = (0..k)
+                    .map(|i| {
+                        let a = a0 + dir * i as f32 * std::f32::consts::TAU / k as f32;
+                        c + vector(a.cos(), a.sin()) * (2.0 + r.below(8) as f32)
+                    })
+                    .collect();
+                let closed = r.chance(3, 4);
+                let p2 = pts.clone();
+                (format!("add_polygon({:?}, closed: {}) [{:?}]", pts, closed, want), catch(move || { let mut b = Path::builder(); b.add_polygon(lyon_path::Polygon { points: &p2, closed }); b.build() }))
+            }
+        };
+        st.inc("audit_shape_helpers");
+        st.inc(&format!("audit_shape_{}{}", ["rectangle", "circle", "ellipse", "rounded_rectangle", "polygon"][which as usize], if degenerate { "_degenerate" } else { "" }));
+        let path = match built {
+            Some(p) => p,
+            None => {
+                afail(st, "audit: shape helper panicked", label, None);
+                continue;
+            }
+        };
+        let subs = apath_read(&path);
+        if subs.len() != 1 {
+            afail(st, "audit: shape helper did not add exactly one sub-path", format!("{}: {}", label, subs.len()), None);
+            continue;
+        }
+        let fine = afine(&subs, AUDIT_N);
+        let (fa, per, gross) = aarea(&fine[0]);
+        let bound = per * tol as f64 + 1e-4 * gross + 1e-4;
+        let res = catch(std::panic::AssertUnwindSafe(|| (compute_winding(&mut path.iter()), approximate_signed_area(tol, path.iter()))));
+        let (got, area) = match res {
+            Some(x) => x,
+            None => {
+                afail(st, "audit: compute_winding / signed area of a helper shape panicked", label, None);
+                continue;
+            }
+        };
+        let positive = want == Winding::Positive;
+        // a single-point / two-point polygon and the zero-size shapes enclose nothing
+        let null_area = degenerate && !(which == 3 && fa.abs() > 1.0);
+        if null_area {
+            // nothing is enclosed: the area must be (about) zero; compute_winding's result is unspecified for a null
+            // area (its documentation) and is only recorded
+            st.inc(&format!("audit_obs_null_{}_reports_{:?}_for_requested_{:?}", ["rectangle", "circle", "ellipse", "rounded_rectangle", "polygon"][which as usize], got, want));
+            if !(area.abs() as f64 <= bound) || !(fa.abs() <= 1e-3) {
+                afail(st, "audit: a zero-size helper shape has a non-zero area", format!("{}: reported {} fine flattening {}", label, area, fa), None);
+            }
+        } else {
+            if (fa > 0.0) != positive || !(fa.abs() > 1e-6) {
+                afail(st, "audit: the outline built by a shape helper does not turn in the requested direction", format!("{}: area of the fine flattening {} :: {}", label, fa, apath_text(&subs)), None);
+            }
+            if got != Some(want) {
+                afail(st, "audit: compute_winding of a helper shape is not the requested winding", format!("{}: {:?}", label, got), None);
+            }
+            // (the sign of the reported area is only decided when the area exceeds the bound: a radius below the tolerance)
+            if (fa.abs() > bound && (area > 0.0) != positive) || !((area as f64 - fa).abs() <= bound) {
+                afail(st, "audit: signed area of a helper shape has the wrong sign or differs from its fine flattening by more than perimeter x tolerance", format!("{}: reported {} fine {} bound {}", label, area, fa, bound), None);
+            }
+        }
+        // winding numbers, hit test, fill and reversal on the shape as built
+        audit_path(st, r, &subs, "helper_shape", !null_area, tol, 16);
+    }
+    // observation only: negative ellipse radii (a circle takes |radius|; an ellipse with ONE negative radius is mirrored)
+    for (rx, ry) in [(-3.0f32, 2.0f32), (3.0, -2.0), (-3.0, -2.0)] {
+        for want in [Winding::Positive, Winding::Negative] {
+            if let Some(p) = catch(|| { let mut b = Path::builder(); b.add_ellipse(point(0.0, 0.0), vector(rx, ry), Angle::radians(0.0), want); b.build() }) {
+                let got = compute_winding(&mut p.iter());
+                st.inc(if got == Some(want) { "audit_obs_ellipse_negative_radius_keeps_direction" } else { "audit_obs_ellipse_negative_radius_flips_direction" });
+            }
+        }
+    }
+}
+
 pub fn main(args: &Args) -> std::io::Result<()> {
     let mut st = Stats::default();
     let mut w = ShardWriter::new(&args.out, "c18_cases", args.shards, HEADER, "bad_cases");
@@ -543,6 +1684,8 @@ pub fn main(args: &Args) -> std::io::Result<()> {
     }
     drop(cx);
     curved_and_shapes(args, &mut st);
+    audit_curved(args, &mut st);
+    audit_shapes(args, &mut st);
     w.finish()?;
     st.write(&args.out.join("c18_stats.json"))
 }
